@@ -168,7 +168,20 @@ func runOne(t *testing.T, prop Property, p *Plan, keepLog bool) (*Run, []Violati
 	if r.Err != "" {
 		return r, nil
 	}
-	return r, classify(r, prop)
+	vs := classify(r, prop)
+	if r.Deadlock != "" {
+		switch r.Plan.Prop {
+		case "C05", "C13", "C18", "C20":
+			// these statements promise that nothing hangs / leaks: a goroutine of Olla that is still blocked
+			// after shutdown, with every connection closed and unbounded simulated time granted, never ends
+			vs = append(vs, Violation{Prop: r.Plan.Prop, Class: r.Plan.Prop + "/goroutine-blocked-forever", Detail: fmt.Sprintf("%d goroutine(s) of the system under test were still blocked after shutdown, after all connections were closed and after >10 simulated minutes: %s", r.Goroutines[1], r.Deadlock)})
+		default:
+			if len(vs) == 0 {
+				r.Err = "bubble-deadlock: " + r.Deadlock
+			}
+		}
+	}
+	return r, vs
 }
 
 func hasClass(vs []Violation, class string) *Violation {
